@@ -1,4 +1,5 @@
 import Urandom.Driver.Word
+import Urandom.Driver.Distr
 open Urandom.Driver
 
 def answer (line : String) : String :=
@@ -8,6 +9,17 @@ def answer (line : String) : String :=
     let kv := parseKV rest
     let r := match kind with
       | "word" => wordRequest kv
+      | "uint" => uintRequest kv
+      | "index" => indexRequest kv
+      | "dice" => diceRequest kv
+      | "shuf" => shufRequest kv
+      | "pshuf" => pshufRequest kv
+      | "choose" => chooseRequest kv
+      | "multi" => multiRequest kv
+      | "alnum" => alnumRequest kv
+      | "f01" => f01Request kv
+      | "bern" => bernRequest kv
+      | "std" => stdRequest kv
       | _ => none
     r.getD "bad-request"
 
